@@ -36,6 +36,8 @@ use ractor_cluster::remote_actor_verif_hooks::ProxyProbe;
 ///   cast <dir> <t> <sender> <seq>   proxy.cast(Cast(sender, seq))          -> ok|err
 ///   call <dir> <t> <id> <req>       caller task: proxy.call(Call(req))     -> ok
 ///   hold <dir> <t> <id> <req>       same with a request the probe never answers -> ok
+///   holdt <dir> <t> <id> <req> <ms> same, the caller gives up after <ms> (the timeout travels in the frame) -> ok
+///   advance <ms>                    the paused clock moves on (kept below the 1 s ping period) -> ok
 ///   abandon <id>                    abort the caller task                  -> ok
 ///   sched <n>                       n scheduler steps (PRNG order)         -> ok
 ///   settle                          run everything to quiescence           -> quiet|busy
@@ -367,6 +369,38 @@ mod e2e {
                         },
                     }
                 }
+                ["advance", ms] => {
+                    st.bump("e_advance");
+                    tokio::time::advance(std::time::Duration::from_millis(ms.parse().unwrap())).await;
+                    for _ in 0..4 {
+                        tokio::task::yield_now().await;
+                    }
+                    "ok".into()
+                }
+                ["holdt", d, t, id, req, ms] => {
+                    st.bump("e_holdt");
+                    let (t, id, req, ms): (usize, u64, u64, u64) =
+                        (t.parse().unwrap(), id.parse().unwrap(), req.parse().unwrap(), ms.parse().unwrap());
+                    match self.proxy(Self::dir(d), t) {
+                        None => "noproxy".into(),
+                        Some(c) => {
+                            let r = ActorRef::<ProbeMsg>::from(c);
+                            let h = tokio::spawn(async move {
+                                match r.call(|tx| ProbeMsg::Hold(req, tx), Some(std::time::Duration::from_millis(ms))).await {
+                                    Ok(CallResult::Success(v)) => format!("ok:{v}"),
+                                    Ok(CallResult::Timeout) => "timeout".to_string(),
+                                    Ok(CallResult::SenderError) => "dropped".to_string(),
+                                    Err(_) => "senderr".to_string(),
+                                }
+                            });
+                            self.callers.insert(id, h);
+                            for _ in 0..4 {
+                                tokio::task::yield_now().await;
+                            }
+                            "ok".into()
+                        }
+                    }
+                }
                 [kind @ ("call" | "hold"), d, t, id, req] => {
                     st.bump(if *kind == "call" { "e_call" } else { "e_hold" });
                     let (t, id, req): (usize, u64, u64) = (t.parse().unwrap(), id.parse().unwrap(), req.parse().unwrap());
@@ -584,6 +618,7 @@ mod e2e {
         let groups = ["g1", "g2"];
         let rounds = rng.range(2, 6);
         let mut cut = false;
+        let mut clock = 0u64; // total advance stays below the ping period, so no ping traffic
         for _ in 0..rounds {
             // a burst of concurrent traffic from several senders through both proxies
             let burst = rng.range(1, 14);
@@ -601,16 +636,29 @@ mod e2e {
                     ops.push(format!("call {} {t} {ncall} {}", dirs[d as usize], 100 + ncall));
                     open_calls.push(ncall);
                     ncall += 1;
-                } else if k < 93 {
+                } else if k < 90 {
                     ops.push(format!("hold {} {t} {ncall} {}", dirs[d as usize], 100 + ncall));
                     open_calls.push(ncall);
                     ncall += 1;
+                } else if k < 94 {
+                    ops.push(format!("holdt {} {t} {ncall} {} {}", dirs[d as usize], 100 + ncall, rng.pick(&[20u64, 50, 120])));
+                    open_calls.push(ncall);
+                    ncall += 1;
+                } else if k < 96 && clock < 800 {
+                    let ms = *rng.pick(&[10u64, 30, 60, 100]);
+                    clock += ms;
+                    ops.push(format!("advance {ms}"));
                 } else if !open_calls.is_empty() {
                     ops.push(format!("abandon {}", rng.pick(&open_calls)));
                 }
                 if rng.chance(1, 5) {
                     ops.push(format!("sched {}", rng.range(1, 60)));
                 }
+            }
+            if rng.chance(1, 4) && clock < 800 {
+                let ms = *rng.pick(&[30u64, 60, 130]);
+                clock += ms;
+                ops.push(format!("advance {ms}"));
             }
             // sometimes a lifecycle event races with the traffic, sometimes it comes at rest
             if rng.chance(1, 2) {
